@@ -1211,18 +1211,67 @@ CATALOG = [
   {'FN': (['def string FN = m1', 'def string FN = m2'], [None])}),
  ('copy', {'before-assert': ['copy @[CSRC]@ copied', '$ echo "copied $(test -d copied && echo dir || echo file)" ' + LOG]},
   {'CSRC': (['def path CSRC = -rel-act data.txt', 'def path CSRC = -rel-act d'], [None])}),
+
+ # compound expressions over case-defined matcher / transformer symbols
+ ('tm-and', {'assert': ['stdout TM5 && constant true']},
+  {'TM5': (['def text-matcher TM5 = num-lines == 3', 'def text-matcher TM5 = is-empty'], [None, 'def line-matcher TM5 = line-num == 1'])}),
+ ('tm-or-not', {'assert': ['contents data.txt : constant false || ! TM6']},
+  {'TM6': (['def text-matcher TM6 = is-empty', 'def text-matcher TM6 = ! is-empty'], [None])}),
+ ('lm-and', {'assert': ['stdout any line : ( LM2 && contents matches a )']},
+  {'LM2': (['def line-matcher LM2 = line-num >= 2', 'def line-matcher LM2 = line-num > 5'], [None, 'def text-matcher LM2 = is-empty'])}),
+ ('lm-or-filter', {'assert': ['stdout -transformed-by filter ( constant false || LM3 )', '  num-lines == 1']},
+  {'LM3': (['def line-matcher LM3 = contents equals beta', 'def line-matcher LM3 = constant true'], [None])}),
+ ('fm-and', {'assert': ['exists data.txt : FM2 && ! type dir']},
+  {'FM2': (['def file-matcher FM2 = type file', 'def file-matcher FM2 = name *.log'], [None, 'def string FM2 = x'])}),
+ ('fm-or-selection', {'assert': ['dir-contents d : -selection ( constant false || FM3 ) num-files == 1']},
+  {'FM3': (['def file-matcher FM3 = name *.txt', 'def file-matcher FM3 = type file'], [None])}),
+ ('fsm-and', {'assert': ['dir-contents d : FSM2 && ! is-empty']},
+  {'FSM2': (['def files-matcher FSM2 = num-files == 2', 'def files-matcher FSM2 = num-files > 2'], [None])}),
+ ('im-or', {'assert': ['exit-code ( IM2 || < 0 )']},
+  {'IM2': (['def integer-matcher IM2 = == 0', 'def integer-matcher IM2 = == 7'], [None, 'def string IM2 = 0'])}),
+ ('im-and-numlines', {'assert': ['stdout num-lines ( IM3 && > 0 )']},
+  {'IM3': (['def integer-matcher IM3 = <= 3', 'def integer-matcher IM3 = <= 2'], [None])}),
+ ('tt-seq', {'assert': ['stdout -transformed-by ( TT5 | filter contents matches a )', '  num-lines == @[N5]@']},
+  {'TT5': (['def text-transformer TT5 = filter -line-nums 1:2', 'def text-transformer TT5 = identity'], [None, 'def string TT5 = identity']),
+   'N5': (['def string N5 = 2', 'def string N5 = 3'], [None])}),
+ ('two-matchers', {'assert': ['stdout TM7 && TM8']},
+  {'TM7': (['def text-matcher TM7 = ! is-empty', 'def text-matcher TM7 = is-empty'], [None]),
+   'TM8': (['def text-matcher TM8 = num-lines >= 3', 'def text-matcher TM8 = num-lines < 3'], [None, 'def integer-matcher TM8 = > 1'])}),
+ # two or more symbol-referencing arguments; wrong RELATIVITY of a definition
+ ('copy-dst-rel', {'before-assert': ['copy @[CS2]@ -rel CD2 dst', '$ echo "dst $(ls @[EXACTLY_TMP]@/dst* d/dst* 2>/dev/null | wc -l)" ' + LOG]},
+  {'CS2': (['def path CS2 = -rel-act data.txt', 'def path CS2 = -rel-act d/x.txt'], [None, 'def path CS2 = -rel-result stdout']),
+   'CD2': (['def path CD2 = -rel-tmp .', 'def path CD2 = -rel-act d'], [None, 'def path CD2 = -rel-home .', 'def path CD2 = -rel-result .', 'def string CD2 = d'])}),
+ ('copy-dst-prefix', {'cleanup': ['copy -rel-act data.txt @[CD3]@/dst3', '$ echo "dst3 $(cat @[EXACTLY_TMP]@/dst3 d/dst3 2>/dev/null | wc -l)" ' + LOG]},
+  {'CD3': (['def path CD3 = -rel-tmp .', 'def path CD3 = -rel-act d'], [None, 'def path CD3 = -rel-home .', 'def path CD3 = -rel-act-home .'])}),
+ ('file-rel-two', {'before-assert': ['file -rel FD nf.txt = "@[FV]@"', '$ echo "nf $(cat @[EXACTLY_TMP]@/nf.txt d/nf.txt 2>/dev/null)" ' + LOG]},
+  {'FD': (['def path FD = -rel-tmp .', 'def path FD = -rel-act d'], [None, 'def path FD = -rel-home .', 'def path FD = -rel-result .']),
+   'FV': (['def string FV = w1', 'def string FV = w2'], [None])}),
+ ('dir-rel', {'cleanup': ['dir -rel DD nd', '$ echo "nd $(ls -d @[EXACTLY_TMP]@/nd d/nd 2>/dev/null | wc -l)" ' + LOG]},
+  {'DD': (['def path DD = -rel-tmp .', 'def path DD = -rel-act d'], [None, 'def path DD = -rel-home .'])}),
+ ('contents-rel-two', {'assert': ['contents -rel CR @[CF]@ : num-lines == @[CN]@']},
+  {'CR': (['def path CR = -rel-act .', 'def path CR = -rel-act d'], [None, 'def string CR = d']),
+   'CF': (['def string CF = data.txt', 'def string CF = x.txt'], [None]),
+   'CN': (['def string CN = 3', 'def string CN = 1'], [None, 'def string CN = many'])}),
+ ('cd-rel', {'cleanup': ['cd -rel CDR .', '$ echo "cdr $(basename $(pwd))" ' + LOG]},
+  {'CDR': (['def path CDR = -rel-tmp .', 'def path CDR = -rel-act d'], [None, 'def path CDR = -rel-home .', 'def path CDR = -rel-result .'])}),
+ ('run-path-args', {'assert': ['run % test -f @[RP1]@ -a -d @[RP2]@']},
+  {'RP1': (['def path RP1 = -rel-act data.txt', 'def path RP1 = -rel-act nothing'], [None]),
+   'RP2': (['def path RP2 = -rel-act d', 'def path RP2 = -rel-act data.txt'], [None, 'def list RP2 = d e'])}),
 ]
 
-CAT_FIXED_SETUP = ['file data.txt = <<EOF', 'alpha', 'beta', 'gamma', 'EOF', 'dir d', 'file d/x.txt = "x"', 'file d/y.log = "y"']
+CAT_FIXED_SETUP = ['file data.txt = <<EOF', 'alpha', 'beta', 'PPTOKEN', 'EOF', 'dir d', 'file d/x.txt = "x"', 'file d/y.log = "y"']
 CAT_ACT = "printf 'alpha\\nbeta\\ngamma\\n'; printf 'oops\\n' >&2"
 CAT_CONF = [['status = SKIP'], ['status = FAIL'], ['actor = null'], ['actor = source % sh'], ['home = hd'], ['act-home = hd'],
             ['actor = source % sh', 'home = hd'], ['status = FAIL', 'act-home = hd']]
 
 
-def gen_cat_family(rng):
-    """-> a self-contained family: suite phase contents, cases (conf lines, definitions), orders"""
-    k = rng.choice([1, 1, 2, 2, 3])
-    entries = rng.sample(CATALOG, k)
+def gen_cat_family(rng, first=()):
+    """-> a self-contained family: suite phase contents, cases (conf lines, definitions), orders.
+    [first]: catalog entries that must be part of it (the caller walks through the whole catalog)"""
+    entries = list(first)
+    for e in rng.sample(CATALOG, rng.choice([0, 0, 1]) if entries else rng.choice([1, 2, 2, 3])):
+        if e not in entries:
+            entries.append(e)
     suite = {}
     for _, phases, _ in entries:
         for ph, lines in phases.items():
@@ -1255,11 +1304,25 @@ def gen_cat_family(rng):
     rep = list(idx)
     rng.shuffle(rep)
     orders.append(rep + [rep[0]])
-    return {'entries': [e[0] for e in entries], 'suite': suite, 'cases': cases, 'orders': orders}
+    fam = {'entries': [e[0] for e in entries], 'suite': suite, 'cases': cases, 'orders': orders}
+    if rng.chance(0.3):
+        # the suite sets a preprocessor (a filter over the case file that fails on a marked case); some cases are marked
+        fam['suite']['conf'] = [CAT_PREPROCESSOR]
+        fam['entries'].append('preprocessor')
+        for c in cases:
+            c['pp_fail'] = rng.chance(0.3)
+        if not any(c['pp_fail'] for c in cases):
+            cases[rng.below(len(cases))]['pp_fail'] = True
+    return fam
+
+
+CAT_PREPROCESSOR = ("preprocessor = sh -c 'if grep -q PP_FAIL \"$1\"; then echo marked >&2; exit 3; fi; sed s/PPTOKEN/gamma/ \"$@\"' pp")
 
 
 def cat_suite_text(fam, cases):
     out = ['[cases]'] + list(cases)
+    if fam['suite'].get('conf'):
+        out = ['[conf]'] + fam['suite']['conf'] + out
     for ph in ('before-assert', 'assert', 'cleanup'):
         if fam['suite'].get(ph):
             out += ['[%s]' % ph] + fam['suite'][ph]
@@ -1268,7 +1331,8 @@ def cat_suite_text(fam, cases):
 
 def cat_case_text(c):
     sh = any(l.startswith('actor = source') for l in c['conf'])
-    out = (['[conf]'] + c['conf'] if c['conf'] else []) + ['[setup]'] + CAT_FIXED_SETUP + c['defs']
+    out = (['# PP_FAIL'] if c.get('pp_fail') else []) + (['[conf]'] + c['conf'] if c['conf'] else [])
+    out += ['[setup]'] + CAT_FIXED_SETUP + c['defs']
     out += ['[act]', CAT_ACT if sh else '$ ' + CAT_ACT]
     # what the case itself sees of the conf settings (its own, or - if they leaked - another case's)
     out += ['[cleanup]', '$ echo "home @[EXACTLY_HOME]@ act-home @[EXACTLY_ACT_HOME]@" ' + LOG]
@@ -1448,8 +1512,12 @@ def run(ctx, res, scale=1):
             if any(sc['m2'] or sc['usages'] for sc in h['scripts']):
                 res.nontrivial.add(json.dumps([obs['case_files'], h['order'], h['mode']], sort_keys=True))
     # ---- experiment 4 (the regression corpus first)
-    n_cat = (22 if ctx.quick else 300) * scale
-    cats = load_corpus() + [gen_cat_family(rng) for _ in range(n_cat)]
+    n_cat = (30 if ctx.quick else 300) * scale
+    walk = list(CATALOG)
+    rng.shuffle(walk)
+    walk = walk * (1 + 2 * n_cat // len(walk))
+    # every entry of the catalog is part of some family of every run: two consecutive entries of a shuffled walk per family
+    cats = load_corpus() + [gen_cat_family(rng, first=walk[2 * i:2 * i + 2]) for i in range(n_cat)]
     for fam, (st, obs) in zip(cats, run_parallel(ctx, 'cat', cats)):
         if st != 'ok':
             res.errors.append('catalog experiment failed to run: ' + obs)
